@@ -607,7 +607,7 @@ def run_binary(tier, seed, log, want_die=True):
         path, port = write_cfg(**kw)
         checks += 1
         try:
-            pr = subprocess.run([exe, "-c", path] + args, capture_output=True, text=True, timeout=10)
+            pr = subprocess.run([exe, "-c", path] + args, capture_output=True, text=True, timeout=20)
             if pr.returncode == 0:
                 viol("invalid-config-accepted:" + sig, "the server exited 0 on an invalid configuration", config=open(path).read())
         except subprocess.TimeoutExpired:
@@ -627,7 +627,7 @@ def run_binary(tier, seed, log, want_die=True):
                     time.sleep(0.05)
             return None
 
-        def talk(lines, until, timeout=10):
+        def talk(lines, until, timeout=40):
             c = connect()
             if c is None:
                 return None, ""
@@ -655,14 +655,14 @@ def run_binary(tier, seed, log, want_die=True):
         if "MAXCHANNELS=2" not in out or " 221 alpha +w" not in out:
             viol("welcome-maxjoins-modes", "ISUPPORT / 221 do not reflect max_joins / default_user_modes", got=out[-600:])
         checks += 1
-        c2, out2 = talk(["PASS wrongpw", "NICK beta", "USER b 0 * :B"], " 464 ", timeout=5)
+        c2, out2 = talk(["PASS wrongpw", "NICK beta", "USER b 0 * :B"], " 464 ", timeout=40)
         if " 464 " not in out2 or " 001 " in out2:
             viol("wrong-password-accepted", "a password other than the one the -g hash was generated from was not refused", got=out2[:400])
         # max_joins governs
         checks += 1
         c1.sendall(b"JOIN #a\r\nJOIN #b\r\nJOIN #c\r\nPING done\r\n")
         buf = b""
-        c1.settimeout(5)
+        c1.settimeout(40)
         try:
             while b"PONG" not in buf:
                 buf += c1.recv(65536)
@@ -675,7 +675,7 @@ def run_binary(tier, seed, log, want_die=True):
             checks += 1
             c1.sendall(b"OPER root rootpw\r\nDIE :bye\r\n")
             try:
-                srv.wait(timeout=10)
+                srv.wait(timeout=40)
             except subprocess.TimeoutExpired:
                 viol("die-does-not-stop", "the server process keeps running after DIE from an operator")
         for c in (c1, c2):
